@@ -439,4 +439,37 @@ def coopStep (S A : List Nat) (alpha gamma : Rat) (norm : List Rat) (q : FM) (e 
 def coopRun (S A : List Nat) (alpha gamma : Rat) (norm : List Rat) (q : FM)
     (hist : List (List Nat × List Nat × List Nat × List Nat × List Rat)) : FM := hist.foldl (coopStep S A alpha gamma norm) q
 
+/-! ### `SparseCooperativeQLearning` (src/Factored/MDP/Algorithms/SparseCooperativeQLearning.cpp).
+Rules are kept in insertion order; `rules_.filter(join(s, a))` returns the rules whose partial state and partial action
+agree with (s, a), in that order (FilterMap over a Trie, property C20).  The greedy `a1` is an input. -/
+
+structure QRule where
+  sk : List Nat
+  sv : List Nat
+  ak : List Nat
+  av : List Nat
+  value : Rat
+  deriving Repr, BEq
+
+def QRule.applies (r : QRule) (s a : List Nat) : Bool :=
+  (r.sk.zip r.sv).all (fun kv => s.getD kv.1 0 == kv.2) && (r.ak.zip r.av).all (fun kv => a.getD kv.1 0 == kv.2)
+
+def sparsePer (nA : Nat) (alpha gamma : Rat) (rules : List QRule) (s a s1 a1 : List Nat) (rew : List Rat) : List Rat :=
+  let before := rules.filter (·.applies s a)
+  let after := rules.filter (·.applies s1 a1)
+  let cnt := before.foldl (fun c r => addAt c r.ak 1) (List.replicate nA 0)
+  let per0 := (rew.zip cnt).map (fun rc => rc.1 / rc.2)
+  let per1 := after.foldl (fun per r => addAt per r.ak (gamma * r.value / (r.ak.length : Rat))) per0
+  let per2 := before.foldl (fun per r => addAt per r.ak (-r.value / (r.ak.length : Rat))) per1
+  per2.map (· * alpha)
+
+/-- `SparseCooperativeQLearning::stepUpdateQ(s, a, s1, rew)` given the greedy `a1` it samples -/
+def sparseStep (nA : Nat) (alpha gamma : Rat) (rules : List QRule) (e : List Nat × List Nat × List Nat × List Nat × List Rat) : List QRule :=
+  let s := e.1; let a := e.2.1
+  let per := sparsePer nA alpha gamma rules s a e.2.2.1 e.2.2.2.1 e.2.2.2.2
+  rules.map (fun r => if r.applies s a then { r with value := r.value + r.ak.foldl (fun u ag => u + per.getD ag 0) 0 } else r)
+
+def sparseRun (nA : Nat) (alpha gamma : Rat) (rules : List QRule)
+    (hist : List (List Nat × List Nat × List Nat × List Nat × List Rat)) : List QRule := hist.foldl (sparseStep nA alpha gamma) rules
+
 end AITB.Factored
